@@ -163,7 +163,7 @@ func c16Perms(n int) [][]int {
 
 // gridMembers generates the family at one of three levels:
 //
-//	"leaf"  — per service: one credential expiring 1 s before the presentation at every position, the others long after;
+//	"leaf"  — two representatives (one credential expiring 1 s before the presentation, the others long after);
 //	"state" — adds every assignment of {absent, 1 s before, long after} to the positions and the members just outside
 //	          the other bounds (offered in the shallow BFS states);
 //	"full"  — the products run by the grid part.
@@ -202,12 +202,19 @@ func (e *c16Env) gridMembers(level string) []c16GReg {
 			x[i] = k
 			return x
 		}
+		if level == "leaf" {
+			// the registrations do not read the list: two representatives (two credentials, the LAST one expiring 1 s before
+			// the presentation; three credentials, the FIRST one)
+			if n == 2 {
+				add(mk(svc, kinds, with(1, "before1"), ident(n)))
+			} else if n == 3 {
+				add(mk(svc, kinds, with(0, "before1"), ident(n)))
+			}
+			continue
+		}
 		// (a) one credential expiring 1 s before the presentation at every position
 		for i := 0; i < n; i++ {
 			add(mk(svc, kinds, with(i, "before1"), ident(n)))
-		}
-		if level == "leaf" {
-			continue
 		}
 		// (b) every assignment over a core alphabet; in the full product over the whole alphabet and every position order
 		core := []string{"none", "before1", "far-after"}
